@@ -112,7 +112,7 @@ def v_diag(case, R):
     rng = gen.rng_of(case)
     D, lead, N = case['D'], tuple(case['lead']), case['N']
     var = 10 ** rng.uniform(-2, 2, size=(*lead, D))
-    mean = rng.standard_normal((*lead, D)) * 3
+    mean = rng.standard_normal((*lead, D)) * 3 * 10 ** rng.choice([0, 0, 3, 6])       # also |mean| / std up to ~1e7
     x = mean[..., None, :] + rng.standard_normal((*lead, N, D)) * np.sqrt(var)[..., None, :] * 2
     try:
         got = DiagonalGaussian(mean=mean, covariance=var).log_pdf(x)
@@ -122,7 +122,9 @@ def v_diag(case, R):
         R.fail('C07.diag', 'gaussian-diagonal/raised', f'DiagonalGaussian log_pdf raised {type(e).__name__}: {e}'[:200], D=D, lead=list(lead))
         return
     ref = (-0.5 * np.log(2 * np.pi * var)[..., None, :] - 0.5 * (x - mean[..., None, :]) ** 2 / var[..., None, :]).sum(-1)
-    if _cmp(R, 'C07.diag', got, ref, 1e-10 * (1 + np.abs(ref)), 'gaussian-diagonal', case):
+    # x - mean is exact to one rounding of x: the Mahalanobis term carries a relative error of eps |x| / |x - mean|
+    cancel = float((np.abs(x) / np.maximum(np.abs(x - mean[..., None, :]), 1e-300)).max())
+    if _cmp(R, 'C07.diag', got, ref, (1e-10 + 64 * np.finfo(float).eps * min(cancel, 1e9)) * (1 + np.abs(ref)), 'gaussian-diagonal', case):
         _sig(R, case)
 
 
@@ -131,7 +133,7 @@ def v_spher(case, R):
     rng = gen.rng_of(case)
     D, lead, N = case['D'], tuple(case['lead']), case['N']
     var = 10 ** rng.uniform(-2, 2, size=lead)
-    mean = rng.standard_normal((*lead, D)) * 3
+    mean = rng.standard_normal((*lead, D)) * 3 * 10 ** rng.choice([0, 0, 3, 6])
     x = mean[..., None, :] + rng.standard_normal((*lead, N, D)) * np.sqrt(var)[..., None, None] * 2
     try:
         got = SphericalGaussian(mean=mean, covariance=np.asarray(var)).log_pdf(x)
@@ -141,7 +143,8 @@ def v_spher(case, R):
         R.fail('C07.spher', 'gaussian-spherical/raised', f'SphericalGaussian log_pdf raised {type(e).__name__}: {e}'[:200], D=D, lead=list(lead))
         return
     ref = -0.5 * D * np.log(2 * np.pi * var)[..., None] - 0.5 * ((x - mean[..., None, :]) ** 2).sum(-1) / np.asarray(var)[..., None]
-    if _cmp(R, 'C07.spher', got, ref, 1e-10 * (1 + np.abs(ref)), 'gaussian-spherical', case):
+    cancel = float((np.abs(x) / np.maximum(np.abs(x - mean[..., None, :]), 1e-300)).max())
+    if _cmp(R, 'C07.spher', got, ref, (1e-10 + 64 * np.finfo(float).eps * min(cancel, 1e9)) * (1 + np.abs(ref)), 'gaussian-spherical', case):
         _sig(R, case)
 
 
@@ -173,6 +176,8 @@ def v_vmf(case, R):
     D, lead, N = case['D'], tuple(case['lead']), case['N']
     mean = oracles.unit(rng.standard_normal((*lead, D)))
     kappa = 10 ** rng.uniform(-6, math.log10(500), size=lead)
+    if case['rs'][-1] % 5 == 0:
+        kappa = rng.integers(1, 500, size=lead)            # integer-valued concentrations in an integer array are valid parameters too
     x = rng.standard_normal((*lead, N, D)) * 10 ** rng.uniform(-3, 3, size=(*lead, N, 1))   # any positive length
     # include mode / antipode / orthogonal directions
     if N >= 3:
@@ -256,7 +261,12 @@ def v_bingham(case, R):
         lam[idx] = _bingham_eigs(rng, D, case['cluster'])
     z = oracles.unit(gen.cnormal(rng, (*lead, N, D)))
     try:
-        got = np.asarray(ComplexBingham(covariance_eigenvectors=U, covariance_eigenvalues=lam.copy()).log_pdf(z))
+        model = ComplexBingham(covariance_eigenvectors=U, covariance_eigenvalues=lam.copy())
+        first = np.asarray(model.log_pdf(z))
+        got = np.asarray(model.log_pdf(z))              # second evaluation on the same object
+        R.check('C07.bingham', np.array_equal(first, got, equal_nan=True) and np.array_equal(np.asarray(model.covariance_eigenvalues), lam),
+                'bingham/evaluation-changes-the-model', 'a second log_pdf call on the same ComplexBingham object differs from the first (stored parameters changed)', D=D)
+        got = first
     except Exception as e:
         if not instr.is_library_exception(e):
             raise
